@@ -22,7 +22,8 @@ RULE = ("Generated: convex polygons and polyhedra that are tangential, cyclic, b
         "< 1e-10 relative, must raise RuntimeError when it misses by >= 1e-2. Non-trivial: non-existence cases, quadrilaterals / "
         "5-face solids, non-convex inputs, scales != 1.")
 ASSUMPTIONS = ["circum-/in-ball existence is only asserted for relative misfit < 1e-10 (exists) or >= 1e-2 (does not exist)",
-               "minimal bounding ball compared with relative tolerance 1e-5 (miniball iterates to ~1e-7)"]
+               "minimal bounding ball compared with relative tolerance 1e-5 (miniball iterates to ~1e-7)",
+               "circum-/in-ball equidistance and tangency: 1e-6 of the size (the least-squares systems mix unit normals with coordinates, so at a length scale of 1e-8 they lose about half the digits)"]
 
 
 # --------------------------------------------------------------------------- generators
@@ -239,8 +240,8 @@ def _polygon(case, rec):
 
     def v_circ(b, s2):
         dd = np.linalg.norm(V - np.asarray(b.centroid, dtype=float), axis=1)
-        rec.close("circumball_through_every_vertex", dd, np.full_like(dd, b.radius), 1e-8 * size, s2)
-        rec.close("circumball_in_plane", np.dot(np.asarray(b.centroid) - V[0], nrm), 0.0, 1e-8 * size, s2)
+        rec.close("circumball_through_every_vertex", dd, np.full_like(dd, b.radius), 1e-6 * size, s2)
+        rec.close("circumball_in_plane", np.dot(np.asarray(b.centroid) - V[0], nrm), 0.0, 1e-6 * size, s2)
 
     _existence(rec, obj, "circumcircle", mis, v_circ, sig)
     # incircle (tangent to every edge line from inside) - convex polygons only
@@ -260,7 +261,7 @@ def _polygon(case, rec):
         def v_in(b, s2):
             c = np.asarray(b.centroid, dtype=float)
             dd = off2 - en @ c
-            rec.close("inball_tangent_to_every_edge", dd, np.full_like(dd, b.radius), 1e-8 * size, s2)
+            rec.close("inball_tangent_to_every_edge", dd, np.full_like(dd, b.radius), 1e-6 * size, s2)
             rec.check(np.all(dd > 0) and b.radius > 0, "inball_centre_inside", s2)
 
         _existence(rec, obj, "incircle", mis_in, v_in, sig)
@@ -304,7 +305,7 @@ def _polyhedron(case, rec):
         def v_in(b, s2):
             c = np.asarray(b.centroid, dtype=float)
             dd = off - nrm @ c
-            rec.close("inball_tangent_to_every_face", dd, np.full_like(dd, b.radius), 1e-8 * size, s2)
+            rec.close("inball_tangent_to_every_face", dd, np.full_like(dd, b.radius), 1e-6 * size, s2)
             rec.check(np.all(dd > 0) and b.radius > 0, "inball_centre_inside", s2)
 
         _existence(rec, obj, "insphere", mis_in, v_in, sig)
@@ -315,7 +316,7 @@ def _polyhedron(case, rec):
 
     def v_circ(b, s2):
         dd = np.linalg.norm(V - np.asarray(b.centroid, dtype=float), axis=1)
-        rec.close("circumball_through_every_vertex", dd, np.full_like(dd, b.radius), 1e-8 * size, s2)
+        rec.close("circumball_through_every_vertex", dd, np.full_like(dd, b.radius), 1e-6 * size, s2)
 
     _existence(rec, obj, "circumsphere", mis, v_circ, sig)
     rec.label("kind:" + kind, sig["cls"], "scale:" + sig["scale"])
